@@ -233,9 +233,10 @@ func (fc *FnCtx) storeLoc(l *Loc, v string) {
 func (fc *FnCtx) interiorTerm(base string, T types.Type, fld int) string {
 	g := fc.g
 	st := T.Underlying().(*types.Struct)
-	name := "|fa!" + typeKey(T) + "!" + st.Field(fld).Name() + "|"
-	g.declareFun(name, "(Int) Int")
-	return fmt.Sprintf("(%s %s)", name, base)
+	// address of a value-typed field: an injective function of (object, field), outside the range of
+	// object references (objects are numbered below 2^40: assumed at function entry)
+	id := g.sorts.fieldID(typeKey(T) + "." + st.Field(fld).Name())
+	return fmt.Sprintf("(+ 1125899906842624 (* %s 4096) %d)", base, id)
 }
 
 // ---------------------------------------------------------------------------
